@@ -94,6 +94,12 @@ pub fn rates_segment_in(case: &RatesCase, dir: &std::path::Path) -> Value {
                 let today = ev["today"].as_i64().unwrap();
                 let tp = ev["todayPub"].as_bool().unwrap_or(false);
                 let force = ev["force"].as_bool().unwrap_or(false);
+                // wr = false: this run cannot write the cache (a directory squats on every temporary /
+                // final file name it would create)
+                let wr = ev["wr"].as_bool().unwrap_or(true);
+                if case.cache != "mem" {
+                    set_cache_writable(&dir, wr, today);
+                }
                 {
                     let mut r = remote.borrow_mut();
                     r.today = today;
@@ -111,7 +117,7 @@ pub fn rates_segment_in(case: &RatesCase, dir: &std::path::Path) -> Value {
                     JsonRemoteRateLoader::new_boxed(Box::new(MockBoc(remote.clone()))),
                     WriteHandle::empty_write_handle(),
                 ));
-                evs.push(json!({"ev": "run", "today": today, "todayPub": tp, "force": force, "d": 0,
+                evs.push(json!({"ev": "run", "today": today, "todayPub": tp, "force": force, "wr": wr || case.cache == "mem", "d": 0,
                                 "kind": "", "day": 0, "val": dzero(), "http": [], "msg": "",
                                 "nkind": "", "nday": 0, "nval": dzero()}));
             }
@@ -141,7 +147,7 @@ pub fn rates_segment_in(case: &RatesCase, dir: &std::path::Path) -> Value {
                         Err(_) => ("panic", 0, Decimal::ZERO),
                     }
                 };
-                evs.push(json!({"ev": "lookup", "today": 0, "todayPub": false, "force": false, "d": d,
+                evs.push(json!({"ev": "lookup", "today": 0, "todayPub": false, "force": false, "wr": true, "d": d,
                                 "kind": kind, "day": day, "val": dj(&val), "http": http, "msg": clean(&msg),
                                 "nkind": nkind, "nday": nday, "nval": dj(&nval)}));
             }
@@ -150,6 +156,26 @@ pub fn rates_segment_in(case: &RatesCase, dir: &std::path::Path) -> Value {
     }
     let cal: Vec<Value> = case.cal.iter().map(|(d, q)| json!([d, dj(&q.parse::<Decimal>().unwrap_or_default()), date_of(*d).year() >= 2017])).collect();
     json!({"id": case.id, "cache": if case.cache == "mem" { "mem" } else { "csv" }, "cal": cal, "events": evs, "tags": case.tags})
+}
+
+/// make every cache write of a run fail (or succeed again): directories occupy the names of the
+/// temporary files the writer creates, for every year the run could touch
+fn set_cache_writable(dir: &std::path::Path, writable: bool, today: i64) {
+    let y = date_of(today).year();
+    for year in (y - 3)..=(y + 1) {
+        for name in [format!("rates-{}.csv.tmp", year)] {
+            let p = dir.join(&name);
+            if writable {
+                if p.is_dir() {
+                    let _ = std::fs::remove_dir_all(&p);
+                }
+            } else if !p.exists() {
+                let _ = std::fs::create_dir_all(p.join("blocked"));
+            }
+        }
+        // an in-place writer would be blocked by a read-only final file only for non-root; as root the
+        // tmp-name squatting above is what makes the (temporary-file) writer fail
+    }
 }
 
 /// A TLC behaviour over the window calendar (model day k = 2016-12-20 + k): turn it into a case
@@ -221,7 +247,7 @@ pub fn gen_rates_case(seed: u64, k: u64) -> RatesCase {
         // a rate that was out stays out: a later run on the same day cannot see less
         let tp = rng.gen_bool(0.4) || matches!(last_run, Some((t, true)) if t == today);
         last_run = Some((today, tp));
-        events.push(json!({"ev": "run", "today": today, "todayPub": tp, "force": rng.gen_bool(0.15)}));
+        events.push(json!({"ev": "run", "today": today, "todayPub": tp, "force": rng.gen_bool(0.15), "wr": !rng.gen_bool(0.12)}));
         let nl = rng.gen_range(1..6);
         for _ in 0..nl {
             let d = match rng.gen_range(0..10) {
